@@ -47,7 +47,10 @@ func genC16B(r *h.Rng, tier string, idx int) *h.Plan {
 	accounts := []string{"acctA", "acctB"}
 	ids := []string{"j1", "j2"}
 	sleep := func(lo, hi int) {
-		d := time.Duration(r.Range(lo, hi))*time.Millisecond + time.Duration(2*r.Range(1, 400)+1)*time.Microsecond
+		// every operation gets its own sub-millisecond residue (2 us more than
+		// the previous one), so that no operation ever coincides with a poll of
+		// the work loops (whose grid inherits the residue of the last reopen)
+		d := time.Duration(r.Range(lo, hi))*time.Millisecond + 2*time.Microsecond
 		p.Ops = append(p.Ops, h.Op{K: "sleep", N: int64(d)})
 	}
 	sleep(1, 900)
@@ -149,37 +152,44 @@ func execC16B(t *testing.T, plan *h.Plan, trace bool) *h.Result {
 		type span struct{ from, to time.Time }
 		var disturbed []span
 		checkTables := func() {
-			// jobs<p> and time<p> are in bijection through TId
-			for pi := 0; pi < parts; pi++ {
-				jobs := map[string]crolt.Job{}
-				tims := map[string]crolt.Job{}
-				c.Scan(fmt.Sprintf("jobs%d", pi), func(b, k, v string) (bool, error) {
-					var j crolt.Job
-					json.Unmarshal([]byte(v), &j)
-					jobs[k] = j
-					return false, nil
-				})
-				c.Scan(fmt.Sprintf("time%d", pi), func(b, k, v string) (bool, error) {
-					var j crolt.Job
-					json.Unmarshal([]byte(v), &j)
-					tims[k] = j
-					return false, nil
-				})
-				for aid, j := range jobs {
-					if _, ok := tims[j.TId]; !ok {
-						fail("job-without-time-entry", "tables", "partition %d: job %s has TId %q which is not in the time index %v", pi, aid, j.TId, keysOf(tims))
+			// jobs<p> and time<p> are in bijection through TId (one read transaction)
+			db.View(func(tx *bolt.Tx) error {
+				for pi := 0; pi < parts; pi++ {
+					jobs := map[string]crolt.Job{}
+					tims := map[string]crolt.Job{}
+					if b := tx.Bucket([]byte(fmt.Sprintf("jobs%d", pi))); b != nil {
+						b.ForEach(func(k, v []byte) error {
+							var j crolt.Job
+							json.Unmarshal(v, &j)
+							jobs[string(k)] = j
+							return nil
+						})
+					}
+					if b := tx.Bucket([]byte(fmt.Sprintf("time%d", pi))); b != nil {
+						b.ForEach(func(k, v []byte) error {
+							var j crolt.Job
+							json.Unmarshal(v, &j)
+							tims[string(k)] = j
+							return nil
+						})
+					}
+					for aid, j := range jobs {
+						if _, ok := tims[j.TId]; !ok {
+							fail("job-without-time-entry", "tables", "partition %d: job %s has TId %q which is not in the time index %v", pi, aid, j.TId, keysOf(tims))
+						}
+					}
+					for tid, j := range tims {
+						aid := j.Account + "," + j.Id
+						jj, ok := jobs[aid]
+						if !ok {
+							fail("time-entry-without-job", "tables", "partition %d: time entry %q has no job %s", pi, tid, aid)
+						} else if jj.TId != tid {
+							fail("stale-time-entry", "tables", "partition %d: time entry %q is stale, job %s is now at %q", pi, tid, aid, jj.TId)
+						}
 					}
 				}
-				for tid, j := range tims {
-					aid := j.Account + "," + j.Id
-					jj, ok := jobs[aid]
-					if !ok {
-						fail("time-entry-without-job", "tables", "partition %d: time entry %q has no job %s", pi, tid, aid)
-					} else if jj.TId != tid {
-						fail("stale-time-entry", "tables", "partition %d: time entry %q is stale, job %s is now at %q", pi, tid, aid, jj.TId)
-					}
-				}
-			}
+				return nil
+			})
 		}
 		for i, op := range plan.Ops {
 			opIdx = i
